@@ -102,12 +102,19 @@ package keeper
 //@ func (k msgServer).Tip(goCtx, msg) (resp, err)
 //@ requires [msg_present] msg != nil
 //@ requires [tipper_is_not_the_oracle_account] addrstr(msg.Tipper) != module("oracle")
+//@ requires [tipper_is_a_valid_address_checked_by_ValidateBasic] bech32ok(msg.Tipper)
+//@ requires [windows_fit] forall q bytes :: forall i int :: blockheight(goCtx) + oracle.Query[pair(q, i)].RegistrySpecBlockWindow < 18446744073709551616
 //@ modifies G_*
 //@ ensures [only_the_signer_pays] forall a addr :: a != addrstr(msg.Tipper) && a != module("oracle") ==> bank.bal[a] == old(bank.bal[a])
 //@ ensures [signer_pays_exactly_the_tip] err == nil ==> bank.bal[addrstr(msg.Tipper)] == old(bank.bal[addrstr(msg.Tipper)]) - msg.Amount.Amount
 //@ ensures [oracle_account_keeps_tip_minus_burn] err == nil ==> bank.bal[module("oracle")] == old(bank.bal[module("oracle")]) + msg.Amount.Amount - 2*msg.Amount.Amount/100
 //@ ensures [two_percent_burned] err == nil ==> bank.supply == old(bank.supply) - 2*msg.Amount.Amount/100
 //@ ensures [only_positive_loya_tips] err == nil ==> msg.Amount.Amount > 0 && msg.Amount.Denom == "loya"
+// rounds (C07): cur is the latest round of the tipped query as returned by CurrentQuery, tipped(msg) the stored round after the tip
+//@ define tipped(msg) = oracle.Query[pair(keccak(msg.QueryData), ret(CurrentQuery, 0).Id)]
+//@ ensures [tip_is_added_to_the_latest_round] err == nil && ret(CurrentQuery, 1) == nil ==> has(oracle.Query, pair(keccak(msg.QueryData), ret(CurrentQuery, 0).Id)) && tipped(msg).Amount == ret(CurrentQuery, 0).Amount + msg.Amount.Amount - 2*msg.Amount.Amount/100 && tipped(msg).HasRevealedReports == ret(CurrentQuery, 0).HasRevealedReports
+//@ ensures [an_open_window_is_not_moved] err == nil && ret(CurrentQuery, 1) == nil && ret(CurrentQuery, 0).Expiration >= blockheight(goCtx) ==> tipped(msg).Expiration == ret(CurrentQuery, 0).Expiration && tipped(msg).CycleList == ret(CurrentQuery, 0).CycleList
+//@ ensures [a_closed_window_is_reopened_outside_the_cycle] err == nil && ret(CurrentQuery, 1) == nil && ret(CurrentQuery, 0).Expiration < blockheight(goCtx) ==> tipped(msg).Expiration == blockheight(goCtx) + ret(CurrentQuery, 0).RegistrySpecBlockWindow && !tipped(msg).CycleList
 
 // ---- reward amounts (C09) ----
 
